@@ -35,15 +35,24 @@ class GeminiClientProtocol(asyncio.Protocol):
         meta: Response metadata string.
     """
 
-    def __init__(self, url: str, response_future: asyncio.Future):
+    def __init__(
+        self,
+        url: str,
+        response_future: asyncio.Future,
+        send_on_connect: bool = True,
+    ):
         """Initialize the client protocol.
 
         Args:
             url: The Gemini URL to request.
             response_future: Future to set with the final GeminiResponse.
+            send_on_connect: Send the request as soon as the connection is
+                established. Pass False to verify the peer first (TOFU) and
+                call send_request() afterwards.
         """
         self.url = url
         self.response_future = response_future
+        self.send_on_connect = send_on_connect
         self.transport: asyncio.Transport | None = None
         self.buffer = b""
         self.header_received = False
@@ -60,7 +69,11 @@ class GeminiClientProtocol(asyncio.Protocol):
         """
         self.transport = transport  # type: ignore[assignment]
 
-        # Send Gemini request (just the URL + CRLF)
+        if self.send_on_connect:
+            self.send_request()
+
+    def send_request(self) -> None:
+        """Send the Gemini request (just the URL + CRLF)."""
         request = f"{self.url}\r\n"
         if self.transport:
             self.transport.write(request.encode("utf-8"))
@@ -274,6 +287,7 @@ class TitanClientProtocol(asyncio.Protocol):
         titan_url: str,
         content: bytes,
         response_future: asyncio.Future,
+        send_on_connect: bool = True,
     ):
         """Initialize the Titan client protocol.
 
@@ -281,10 +295,14 @@ class TitanClientProtocol(asyncio.Protocol):
             titan_url: The Titan URL with parameters (;size=N;mime=TYPE;token=TOKEN).
             content: The content bytes to upload.
             response_future: Future to set with the final GeminiResponse.
+            send_on_connect: Send the request as soon as the connection is
+                established. Pass False to verify the peer first (TOFU) and
+                call send_request() afterwards.
         """
         self.titan_url = titan_url
         self.content = content
         self.response_future = response_future
+        self.send_on_connect = send_on_connect
         self.transport: asyncio.Transport | None = None
         self.buffer = b""
         self.header_received = False
@@ -301,6 +319,11 @@ class TitanClientProtocol(asyncio.Protocol):
         """
         self.transport = transport  # type: ignore[assignment]
 
+        if self.send_on_connect:
+            self.send_request()
+
+    def send_request(self) -> None:
+        """Send the Titan request: URL + CRLF + content bytes."""
         if self.transport:
             # Send Titan request: URL + CRLF + content
             request_line = f"{self.titan_url}\r\n".encode()
